@@ -164,6 +164,12 @@ impl Ctx {
         self.imp.write_all(&self.ibuf).unwrap();
         self.ibuf.clear();
     }
+    /// Extra case line carrying the anomalies the real code exhibited during the previous case.
+    pub fn emit_anomalies(&mut self, origin: &str, anomalies: Vec<String>) {
+        let impl_line = if anomalies.is_empty() { "none".to_string() } else { anomalies.join(" ") };
+        self.emit(&format!("anomalies {}", origin), || impl_line);
+    }
+
     pub fn finish(&mut self) {
         self.flush_all();
         let mut s = String::from("{");
